@@ -45,5 +45,29 @@ def run(ctx):
             ctx.violation("%s (%s/%s, four threads)" % (bad["crash"], be, kind), key="h_boot replay crash 4 threads %s %s" % (be, kind))
         elif bad:
             ctx.violation("external product / blind rotation evaluated by four threads at once deviates from the model on %s/%s: row %s" % (be, kind, (bad["row"] or "")[:300]), detail=bad, files=[bad["rows_file"]])
+    # full size, real layouts (Bgbit up to 16, l*Bgbit up to 32, k = 2): noiseless TGSW encryptions of +-X^j with uniform masks, samples with random and
+    # extreme coefficients; TLC checks phase(product) = +-X^j * phase(sample) position by position within the truncation bound of the layout
+    from vlib import build
+    from vlib.common import run as sh
+    import os
+    lays = [(1, 2, 10), (1, 3, 7), (1, 2, 16), (1, 1, 16), (2, 2, 15), (1, 2, 12), (2, 4, 8)] + ([(1, 3, 10), (2, 2, 10), (1, 4, 4), (2, 1, 16), (1, 8, 4)] if thorough else [])
+    for be, kind in ([("spqlios-fma", "optim"), ("fftw", "optim")] if not thorough else [(b, "optim") for b in ("spqlios-fma", "spqlios-avx", "nayuki-portable", "nayuki-avx", "fftw")] + [("spqlios-fma", "debug"), ("fftw", "debug")]):
+        exe = build.harness("h_boot", be, kind)
+        f = os.path.join(ctx.dir, "extfull-%s-%s.ndjson" % (be, kind))
+        with open(f, "w") as out:
+            for (k, l, bg) in lays:
+                rc, o, err = sh([exe, "extfull", "--k", str(k), "--l", str(l), "--bg", str(bg), "--cases", "36" if thorough else "18", "--seed", str(ctx.seed + l * 100 + bg)], timeout=3000)
+                if rc != 0:
+                    ctx.violation("full-size external product died (k=%d, l=%d, Bgbit=%d, %s/%s) rc=%s %s" % (k, l, bg, be, kind, rc, err[-200:]), key="h_boot extfull crash k=%d l=%d bg=%d %s %s" % (k, l, bg, be, kind))
+                    continue
+                out.write(o)
+        bad = table.validate_rows(ctx, "Table_C04F", f, what="C09 extfull %s %s" % (be, kind))
+        if bad:
+            import json
+            try:
+                rw = json.loads(bad["row"]); brief = {q: rw[q] for q in ("f", "kk", "l", "bg", "j", "sgn", "pat")}
+            except Exception:
+                brief = (bad["row"] or "")[:200]
+            ctx.violation("full-size external product (%s/%s) is not +-X^j * phase(sample) within the truncation bound: %s (f: 0 FFT, 1 coefficient domain in place, 2 coefficient domain)" % (be, kind, brief), detail={"row_index": bad["row_index"], "brief": brief}, files=[f])
     ctx.assume("noiseless TGSW rows with model-chosen masks give exact-up-to-FFT-rounding equalities (256 units of 2^-32); the statistical clause for noisy rows is covered by the gate-output statistics of C02")
     ctx.assume("coefficient-domain and FFT-domain variants, and blind rotation whole vs one key element at a time, are validated against the same model, hence agree")
